@@ -109,7 +109,7 @@ CHECKS = {
         },
         "runs": [conc("HarnessC04Quick", ["c04-end", "c04-config-rejected"]), conc("HarnessC04NonBlocking", ["c04-end"]),
                  {"entry": M + "/sourcewrap.HarnessC04Wrapped", "pkgs": SW, "must_reach": ["c04-wrapped-end"], "instrument": [M, M + "/sourcewrap"], "validate": 0},
-                 conc("HarnessC07Quick", ["c07-end"]), conc("HarnessC09Race", ["c09-race-end"]), conc("HarnessC04Aliasing", ["c04-aliasing-end"]), conc("HarnessC08StackError", ["c08-stackerr-end"]), conc("HarnessC06DrainOnCancel", ["c06-drain-end"]), conc("HarnessC04Thorough", ["c04-end"], ["thorough"])],
+                 conc("HarnessC07Quick", ["c07-end"]), conc("HarnessC09Race", ["c09-race-end"]), conc("HarnessC09Quick", ["c09-end"]), conc("HarnessC04Aliasing", ["c04-aliasing-end"]), conc("HarnessC08StackError", ["c08-stackerr-end"]), conc("HarnessC06DrainOnCancel", ["c06-drain-end"]), conc("HarnessC04Thorough", ["c04-end"], ["thorough"])],
         "bounds": {"quick": "1 watching source, 2 updates (blocking and plain), reader with 2 reads; 2 blocking reports of arbitrary validity through a transforming source; all schedules; aliasing scenario (accept/reject/accept-without-leaf on an all-nilable pointee), verdicts after an abandoned report, EnableVerification racing an invalid update, stacking failure, drain with a rejection", "thorough": "3 updates"},
         "outside": "more updates/sources; callback queue overflow (64) is not reached",
         "assumptions": CONC_ASSUME,
@@ -120,7 +120,7 @@ CHECKS = {
             "note": "the receive order is a ghost log appended in the same atomic step as the rendezvous with the monitor",
             "design_ref": "DESIGN.md §4 C05",
         },
-        "runs": [conc("HarnessC05Quick", ["c05-end"]), conc("HarnessC05Seq", ["c05-end"]), conc("HarnessC05AfterDone", ["c05-done-end"]), conc("HarnessC05RejectAccept", ["c05-end"]), conc("HarnessC07Quick", ["c07-end"]),
+        "runs": [conc("HarnessC05Quick", ["c05-end"]), conc("HarnessC05Seq", ["c05-end"]), conc("HarnessC05AfterDone", ["c05-done-end"]), conc("HarnessC05SameObject", ["c05-sameobject-end"]), conc("HarnessC05RejectAccept", ["c05-end"]), conc("HarnessC07Quick", ["c07-end"]),
                  conc("HarnessC05Thorough", ["c05-end"], ["thorough"], maxpaths=1000000, timeout="3000s"), conc("HarnessC05Three", ["c05-end"], ["thorough"], maxpaths=1000000, timeout="3000s")],
         "bounds": {"quick": "2 sources; 1+1 reports with 2 concurrent reads, 2+1 reports without reader; a nested pointer section set or not by the first update; all values symbolic; all schedules; reject-then-accept serials, one watcher Done while the other reports, value filled in by Verify, caller writing to its own defaults",
                    "thorough": "2+2 reports with 2 reads; 3+1 reports with 1 read"},
@@ -163,6 +163,7 @@ CHECKS = {
                  conc("HarnessC08LateCalls", ["c08-late-end"]), conc("HarnessC08BlockedCallback", ["c08-blocked-end"]), conc("HarnessC08BlockingCancel", ["c08-blocking-cancel-end"]),
                  conc("HarnessC08TwoWatchers", ["c08-two-watchers-end"]), conc("HarnessC08PendingUnregister", ["c08-pending-unreg-end"]), conc("HarnessC08StackError", ["c08-stackerr-end"]), conc("HarnessC08UncomparableSource", ["c08-uncomparable-end"]), conc("HarnessC08EventsConsumer", ["c08-events-end"]), conc("HarnessC09EnableCancel", ["c09-enable-cancel-end"]),
                  {"entry": M + "/sourcewrap.HarnessC20BlankContexts", "pkgs": SW, "must_reach": ["c20-blank-ctx-end", "c20-blank-late-end", "c20-blank-eager-end"], "instrument": [M, M + "/sourcewrap"], "validate": 0},
+                 {"entry": M + "/sourcewrap.HarnessC20Blank", "pkgs": SW, "must_reach": ["c20-blank-end", "c20-blank-done"], "instrument": [M, M + "/sourcewrap"], "validate": 0},
                  conc("HarnessC08Thorough", ["c08-end"], ["thorough"], maxpaths=3000000)],
         "bounds": {"quick": "2 callers x 1 op, 2 sequential ops, 9-op alphabet, delay on/off; two watchers finishing in either order or concurrently; an unregistration pending (optionally behind a stuck callback) at shutdown; all schedules; stacking failure, uncomparable source type, Events() consumer, abandoned EnableVerification after a successful one, Blank.SetSource contexts", "thorough": "2+1 ops; blocked-callback run of 67 updates"},
         "outside": "longer operation sequences; more than 2 callers",
@@ -203,6 +204,7 @@ CHECKS = {
         "runs": [
             {"entry": M + "/sources/flag.HarnessC12Scalars", "pkgs": FLAGP, "must_reach": ["c12-end", "c12-error"]},
             {"entry": M + "/sources/flag.HarnessC12Collections", "pkgs": FLAGP, "must_reach": ["c12-end", "c12-error"]},
+            {"entry": M + "/sources/flag.HarnessC12Extras", "pkgs": FLAGP + ["time"], "must_reach": ["c12-extras-end"]},
             {"entry": M + "/sources/flag.HarnessC12Nested", "pkgs": FLAGP, "must_reach": ["c12-nested-end", "c12-nested-error"]},
             {"entry": M + "/sources/flag.HarnessC16FlagPtrLeaves", "pkgs": FLAGP, "must_reach": ["c16-flag-ptr-end"]},
             {"entry": M + "/sources/flag.HarnessC12Gen2", "pkgs": FLAGP, "must_reach": ["c12-gen-end", "c12-gen-error"]},
@@ -236,6 +238,7 @@ CHECKS = {
             {"entry": M + "/transform.HarnessC10Gen2", "pkgs": TFP, "must_reach": ["c10-gen-end"]},
             {"entry": M + "/transform.HarnessC10TypeSubst", "pkgs": TFP, "must_reach": ["c10-typesubst-end"]},
             {"entry": M + "/transform.HarnessC10StringCast", "pkgs": TFP, "must_reach": ["c10-stringcast-end"]},
+            {"entry": M + "/sourcewrap.HarnessC20AnonFlatten", "pkgs": SW, "must_reach": ["c20-anon-end"], "instrument": [M, M + "/sourcewrap"], "validate": 0},
             {"entry": M + "/transform.HarnessC10Gen3", "pkgs": TFP, "must_reach": ["c10-gen-end"], "tiers": ["thorough"]},
         ],
     },
@@ -249,6 +252,7 @@ CHECKS = {
             {"entry": M + "/sources/env.HarnessC14EnvNested", "pkgs": ENVP + ["sort"], "must_reach": ["c14-end", "c14-both-error"]},
             {"entry": M + "/sources/env.HarnessC11Gen2", "pkgs": ENVP, "must_reach": ["c11-gen-end", "c11-gen-error"]},
             {"entry": M + "/sources/env.HarnessC14EnvImplicit", "pkgs": ENVP + ["sort"], "must_reach": ["c14-implicit-end", "c14-implicit-both-error"]},
+            {"entry": M + "/sources/env.HarnessC14EnvTwice", "pkgs": ENVP + ["sort"], "must_reach": ["c14-twice-end"]},
             {"entry": M + "/sources/flag.HarnessC14Flag", "pkgs": FLAGP, "must_reach": ["c14-flag-end", "c14-flag-both-error"]},
             {"entry": M + "/sources/pflag.HarnessC14Pflag", "pkgs": PFLAGP, "must_reach": ["c14-pflag-end", "c14-pflag-both-error"]},
             {"entry": M + "/ez.HarnessC18FileKeys", "pkgs": EZP, "must_reach": ["c18-keys-end", "c18-keys-both-error"], "instrument": [M, M + "/sourcewrap", M + "/ez"], "validate": 0},
@@ -292,6 +296,7 @@ CHECKS = {
             {"entry": PARSE + ".HarnessC16MapKV", "pkgs": TEXT, "must_reach": ["c16-mapkv-end"], "loopcap": 300},
             {"entry": M + "/sources/flag/flaghelper.HarnessC16HelperSetQuick", "pkgs": HELP, "must_reach": ["c16-helper-set-end"], "loopcap": 400, "tiers": ["quick"]},
             {"entry": M + "/sources/flag/flaghelper.HarnessC16HelperSetThorough", "pkgs": HELP, "must_reach": ["c16-helper-set-end"], "loopcap": 400, "tiers": ["thorough"]},
+            {"entry": M + "/transform.HarnessC10Embedded", "pkgs": TFP, "must_reach": ["c10-embedded-end"]},
             {"entry": M + "/sources/env.HarnessC16EnvNamedScalars", "pkgs": ENVP + ["sort"], "must_reach": ["c16-types-end"]},
             {"entry": M + "/sources/env.HarnessC16EnvNamedCollections", "pkgs": ENVP + ["sort"], "must_reach": ["c16-types-end"]},
             {"entry": M + "/sources/env.HarnessC16EnvPointers", "pkgs": ENVP + ["sort"], "must_reach": ["c16-types-end"]},
